@@ -8,5 +8,5 @@ SigValsAll == {-2, 1, 3}
 BsAll == {<<1, 0, -1>>, <<2, 2, 0>>, <<0, 3, -1, 1>>, <<1, 1, 1, 1>>, <<1, -2, 0, 3, 1>>, <<0, 0, 2, 0, 0, -1>>, <<1, 2, 3, 4, 5, 6, 7>>}
 VariantsOne == {<<"vec", FALSE>>}
 VariantsAll == {<<"vec", FALSE>>, <<"vec", TRUE>>, <<"scalar", FALSE>>, <<"scalar", TRUE>>, <<"posonly", TRUE>>,
-                <<"narrow", FALSE>>, <<"narrow", TRUE>>}
+                <<"narrow", FALSE>>, <<"narrow", TRUE>>, <<"table", FALSE>>, <<"table", TRUE>>}
 ====
